@@ -448,7 +448,7 @@ func genPlainOp(r *rng, nr, nc int, atom *int) tblOp {
 
 // runTblCase executes a case; the generator for the families B and C needs the live table, so ops
 // are generated while running.
-func runTblCase(r *rng, family string, nr, nc int) (c tblCase, coq string, fails []OracleFailure, nOK int) {
+func runTblCase(r *rng, family string, nr, nc int, fixed ...tblOp) (c tblCase, coq string, fails []OracleFailure, nOK int) {
 	doc := document.New()
 	t, err := doc.AddTable(&document.TableConfig{Rows: nr, Cols: nc, Width: 1000 * nc})
 	if err != nil {
@@ -457,7 +457,7 @@ func runTblCase(r *rng, family string, nr, nc int) (c tblCase, coq string, fails
 	c = tblCase{Rows: nr, Cols: nc, Family: family}
 	v0 := viewTable(t)
 	grid0 := "None"
-	if r.chance(15) {
+	if len(fixed) == 0 && r.chance(15) {
 		// the table as an opened document may hold it: without a grid definition, or with one that is shorter or longer
 		// than the rows (the column edits complete the grid first)
 		switch r.intn(3) {
@@ -494,6 +494,9 @@ func runTblCase(r *rng, family string, nr, nc int) (c tblCase, coq string, fails
 	atom := 1
 	var steps []string
 	nOps := r.rangeI(3, 22)
+	if len(fixed) > 0 {
+		nOps = len(fixed)
+	}
 	mergedPhase := false
 	for i := 0; i < nOps; i++ {
 		before := viewTable(t)
@@ -507,7 +510,12 @@ func runTblCase(r *rng, family string, nr, nc int) (c tblCase, coq string, fails
 		}
 		var o tblOp
 		plainBefore := isPlainV(before)
-		switch family {
+		fam := family
+		if len(fixed) > 0 {
+			o, fam = fixed[i], "fixed"
+		}
+		switch fam {
+		case "fixed":
 		case "plain":
 			o = genPlainOp(r, cnr, cnc, &atom)
 		case "merge":
@@ -669,10 +677,35 @@ func runC09(cfg *runCfg) error {
 	res.Rule = "histories of 3-22 table calls on tables of 1x1 to 6x6, three families: merge-free (row/column insert/append/delete(s), cell text/paragraph calls, clear; positions inside, at and beyond the bounds), merges under the preconditions of the partial theorems followed by cell-level calls and unmerge, and hostile (any call incl. merges with any arguments on any table); after every call the table is projected (grid, per cell span / vMerge / paragraph atoms) and compared with the model; CopyTable is scribbled over at the end; non-trivial = at least 3 successful calls; distinct by hash of the case"
 	var coqCases []string
 	perClass := map[string]int{}
-	for ci := 0; ci < cfg.n; ci++ {
-		cr := r.fork()
-		family := []string{"plain", "plain", "merge", "hostile"}[cr.intn(4)]
-		c, coq, fails, nOK := runTblCase(cr, family, cr.rangeI(1, 6), cr.rangeI(1, 6))
+	// the corpus runs first: the witness of every recorded finding (known_findings.json), so that each run says
+	// whether it still fails
+	witnesses := [][]tblOp{
+		{{Kind: "MergeH", A: []int{0, 0, 1}}, {Kind: "InsertRow", A: []int{1}}},
+		{{Kind: "MergeV", A: []int{0, 2, 1}}, {Kind: "DeleteRow", A: []int{0}}},
+		// (rows 0 and 1 keep the same number of cells, so the column edit is not refused; the vertical chain in grid
+		// column 2 stands at different positions in the two rows)
+		{{Kind: "MergeV", A: []int{0, 1, 2}}, {Kind: "MergeH", A: []int{0, 0, 1}}, {Kind: "MergeH", A: []int{1, 3, 4}}, {Kind: "MergeH", A: []int{2, 3, 4}}, {Kind: "InsertColumn", A: []int{2, 1000}}},
+		{{Kind: "MergeH", A: []int{1, 0, 1}}, {Kind: "DeleteColumn", A: []int{2}}},
+		{{Kind: "MergeH", A: []int{0, 0, 1}}, {Kind: "MergeV", A: []int{0, 1, 1}}},
+	}
+	for ci := 0; ci < cfg.n+len(witnesses); ci++ {
+		var c tblCase
+		var coq string
+		var fails []OracleFailure
+		var nOK int
+		family := "hostile"
+		if ci < len(witnesses) {
+			wr, wc := 3, 3
+			if len(witnesses[ci]) > 2 {
+				wr, wc = 3, 5
+			}
+			c, coq, fails, nOK = runTblCase(newRng(1), family, wr, wc, witnesses[ci]...)
+			res.Histogram["corpus: witness of a recorded finding"]++
+		} else {
+			cr := r.fork()
+			family = []string{"plain", "plain", "merge", "hostile"}[cr.intn(4)]
+			c, coq, fails, nOK = runTblCase(cr, family, cr.rangeI(1, 6), cr.rangeI(1, 6))
+		}
 		res.Evaluations++
 		res.Histogram["family:"+family]++
 		for _, o := range c.Ops {
